@@ -22,6 +22,9 @@ def main():
         return 2
     run = Run(a.property, a.tier)
     try:
+        from .common import robotools
+
+        robotools()  # puts the tree under test first on sys.path before anything imports it
         if a.replay:
             with open(a.replay) as f:
                 rp = json.load(f)
